@@ -85,6 +85,7 @@ class Contract(object):
         self.setup = None               # fn(ex, env) run after argument creation (object invariants etc.)
         self.post_hooks = []
         self.frame_check = None
+        self.functional = None          # optional fn(**args) -> value: `result == functional(args)` IS the postcondition
 
     # -- declaration API
     def case(self, name, **over):
@@ -119,12 +120,22 @@ class Contract(object):
 
     # -- what a caller sees
     def apply(self, ex, vals, line):
+        if getattr(ex, "field", None) is not None and getattr(self, "field_apply", None) is not None:
+            return self.field_apply(ex, ex.field, vals, line)
         env = dict(vals)
         caller = ex.cur_func
         for i, r in enumerate(self.requires_):
             ex.oblige("%s#call(%s)#requires%d" % (caller, self.short, i), call_named(r, env, ex), "call-requires", line)
         k = ex.choose(1 + len(self.raises_))
         if k == 0:
+            if self.functional is not None:
+                # a functional contract is applied as the function it specifies (two calls on equal arguments
+                # give syntactically equal results); `verify` proves result == functional(args) as an ensures clause
+                res = call_named(self.functional, env, ex)
+                env["result"] = res
+                for label, e in self.ensures_:
+                    ex.assume(call_named(e, env, ex))
+                return res
             if self.result is None:
                 res = None
             else:
